@@ -111,10 +111,18 @@ func NewPMT(pmtBytes []byte) (PMT, error) {
 }
 
 func (p *pmt) parseTables(pmtBytes []byte) error {
+	if len(pmtBytes) < 1+int(PointerField(pmtBytes)) {
+		// not even the pointer_field and its filler bytes are there
+		return gots.ErrPMTParse
+	}
 	sectionBytes := pmtBytes[1+PointerField(pmtBytes):]
 
 	for len(sectionBytes) > 2 && sectionBytes[0] != 0xFF {
 		tableLength := sectionLength(sectionBytes)
+		if len(sectionBytes) < 3+int(tableLength) {
+			// the section is cut short
+			return gots.ErrPMTParse
+		}
 
 		if tableID(sectionBytes) == 0x2 {
 			err := p.parsePMTSection(sectionBytes[0 : 3+tableLength])
@@ -148,6 +156,10 @@ func (p *pmt) parsePMTSection(pmtBytes []byte) error {
 
 	// start at the stream descriptors, parse until the CRC
 	for offset := programInfoLengthOffset + 2 + programInfoLength; offset < PSIHeaderLen+sectionLength-pmtEsDescriptorStaticLen-CrcLen; {
+		if int(offset)+int(pmtEsDescriptorStaticLen) > len(pmtBytes) {
+			// program_info_length or section_length point past the end of the section
+			return gots.ErrPMTParse
+		}
 		elementaryStreamType := uint8(pmtBytes[offset])
 		elementaryPid := int(pmtBytes[offset+1]&0x1f)<<8 | int(pmtBytes[offset+2])
 		pids = append(pids, elementaryPid)
@@ -270,6 +282,9 @@ func ExtractCRC(payload []byte) (uint32, error) {
 	}
 
 	end := PSIHeaderLen + sectionLength
+	if int(end) > len(payload) || sectionLength < CrcLen {
+		return 0, gots.ErrPMTParse
+	}
 
 	// The CRC is the last 4-bytes of the PSI Table.
 	data := payload[end-4 : end]
@@ -313,6 +328,10 @@ func FilterPMTPacketsToPids(packets []*packet.Packet, pids []int) ([]*packet.Pac
 
 	// Determine if any of the given PIDs aren't in the PMT.
 	unfilteredPMT, _ := NewPMT(pmtPayload)
+	if unfilteredPMT == nil {
+		// the payload does not parse as a PMT
+		return nil, gots.ErrPMTParse
+	}
 
 	pmtPid := packet.Pid(packets[0])
 	var missingPids []int
@@ -336,6 +355,11 @@ func FilterPMTPacketsToPids(packets []*packet.Packet, pids []int) ([]*packet.Pac
 
 	// include +1 to account for the PointerField field itself
 	pointerField := PointerField(pmtPayload) + 1
+	if len(pmtPayload) < int(pointerField)+programInfoLengthOffset+2 ||
+		len(pmtPayload) < int(pointerField)+3+int(sectionLength(pmtPayload[pointerField:])) {
+		// the first section is not completely contained in the payload
+		return nil, gots.ErrPMTParse
+	}
 
 	var filteredPMT bytes.Buffer
 
@@ -350,13 +374,22 @@ func FilterPMTPacketsToPids(packets []*packet.Packet, pids []int) ([]*packet.Pac
 
 	// Get program info length
 	programInfoLength := uint16(pmtPayload[programInfoLengthOffset]&0x0f)<<8 | uint16(pmtPayload[programInfoLengthOffset+1])
+	if programInfoLengthOffset+2+int(programInfoLength) > len(pmtPayload) {
+		return nil, gots.ErrPMTParse
+	}
 	if programInfoLength != 0 {
 		filteredPMT.Write(pmtPayload[programInfoLengthOffset+2 : programInfoLengthOffset+2+programInfoLength])
 	}
 
 	for offset := programInfoLengthOffset + 2 + programInfoLength; offset < PSIHeaderLen+sectionLength-pmtEsDescriptorStaticLen-CrcLen; {
+		if int(offset)+int(pmtEsDescriptorStaticLen) > len(pmtPayload) {
+			return nil, gots.ErrPMTParse
+		}
 		elementaryPid := int(pmtPayload[offset+1]&0x1f)<<8 | int(pmtPayload[offset+2])
 		infoLength := uint16(pmtPayload[offset+3]&0x0f)<<8 | uint16(pmtPayload[offset+4])
+		if int(offset)+int(pmtEsDescriptorStaticLen)+int(infoLength) > len(pmtPayload) {
+			return nil, gots.ErrPMTParse
+		}
 
 		// This is an ES PID we want to keep
 		if pidIn(pids, elementaryPid) {
